@@ -423,6 +423,17 @@ def method_cached_arg_by_id(func: CallableT) -> CallableT:
     # get() method of this dictionary, localized for efficiency.
     args_flat_to_exception_get = args_flat_to_exception.get
 
+    # Dictionary mapping from a tuple of the object identifiers of all
+    # parameters passed to each prior call of the decorated method to a tuple of
+    # those parameters themselves. Since object identifiers are unique *ONLY*
+    # across the lifetimes of objects, this dictionary preserves strong
+    # references to all parameters whose identifiers are keys of the above
+    # dictionaries -- preventing those identifiers from being reused by other
+    # objects instantiated after these parameters would otherwise have been
+    # garbage-collected (and thus preventing those other objects from being
+    # erroneously returned the values memoized for these parameters).
+    args_flat_to_args: dict[tuple, tuple] = {}
+
     # ....................{ CLOSURE                        }....................
     @wraps(func)
     def _method_cached(self_or_cls, arg):
@@ -475,6 +486,10 @@ def method_cached_arg_by_id(func: CallableT) -> CallableT:
             if return_value is not SENTINEL:
                 return return_value
             # Else, this callable has yet to be called with these parameters.
+
+            # Preserve strong references to these parameters *BEFORE* memoizing
+            # this call against the identifiers of these parameters.
+            args_flat_to_args[args_flat] = (self_or_cls, arg)
 
             # Attempt to...
             try:
